@@ -34,6 +34,11 @@ def compare(ctx, rule, inst, code: Val, spec: Val, fi, key, strict_idiom=True):
     if tol:
         return ctx.fail(rule, inst, f"the construction is selected / altered by a tolerance-based comparison {tol}: with the default absolute and relative tolerances the "
                         f"outcome depends on the scale of the data (the documented construction is exact)\ncode: {show(arr_term(code), 300)}", fi.loc(), fi.qualname, key)
+    from .common import VALUE_CHANGING
+    vc = sorted(h for h in set(hc) - set(hs) if h in VALUE_CHANGING)
+    if vc:
+        return ctx.fail(rule, inst, f"the documented construction is post-processed by {vc} (rounding / clamping / re-ordering changes values the construction "
+                                    f"keeps exactly, e.g. the original elements)\ncode: {show(arr_term(code), 300)}", fi.loc(), fi.qualname, key)
     if strict_idiom and not (set(hc) <= set(hs)):
         return ctx.unknown(rule, inst, f"construction not recognised: it uses library calls outside the documented construction: {sorted(set(hc) - set(hs))} (documented {sorted(set(hs))})\ncode: {show(arr_term(code), 300)}",
                            fi.loc(), fi.qualname, key)
